@@ -21,6 +21,9 @@ package context
 //@   ensures [C03] injectedfirst: !strContains(variable, ".") && (variable in dc.base) ==> result.1 == nil && result.0 == dc.base[variable]
 //@   ensures [C15] localsecond: !strContains(variable, ".") && !(variable in dc.base) && Vars != nil && (variable in Vars) ==> result.1 == nil && result.0 == Vars[variable]
 //@   ensures [C15] notfound: !strContains(variable, ".") && !(variable in dc.base) && (Vars == nil || !(variable in Vars)) ==> result.1 != nil && result.0 == RV_zero()
+//@   ensures [C03] field1: strContains(variable, ".") && splitCount(variable, ".") == 2 && ((splitPart(variable, ".", 0) in dc.base) || (Vars != nil && (splitPart(variable, ".", 0) in Vars))) ==> result.1 == nil && result.0 == fieldOf(ite(splitPart(variable, ".", 0) in dc.base, dc.base[splitPart(variable, ".", 0)], Vars[splitPart(variable, ".", 0)]), splitPart(variable, ".", 1))
+//@   ensures [C03] field2: strContains(variable, ".") && splitCount(variable, ".") == 3 && ((splitPart(variable, ".", 0) in dc.base) || (Vars != nil && (splitPart(variable, ".", 0) in Vars))) ==> result.1 == nil && result.0 == fieldOf(fieldOf(ite(splitPart(variable, ".", 0) in dc.base, dc.base[splitPart(variable, ".", 0)], Vars[splitPart(variable, ".", 0)]), splitPart(variable, ".", 1)), splitPart(variable, ".", 2))
+//@   ensures [C03] fieldmissing: strContains(variable, ".") && (splitCount(variable, ".") > 3 || (!(splitPart(variable, ".", 0) in dc.base) && (Vars == nil || !(splitPart(variable, ".", 0) in Vars)))) ==> result.1 != nil
 //@   ensures errzero: result.1 != nil ==> result.0 == RV_zero()
 //@   modifies nothing
 
@@ -32,6 +35,14 @@ package context
 //@   oncall core.SetSingleValue
 //@     assert [C03] injectedwins: !strContains(variable, ".") && (variable in dc.base) && arg0 == dc.base[variable] && arg2 == newValue
 //@     after wrote := wrote + 1
+//@   ghost wattr int = 0
+//@   ghost aerr error = nil
+//@   oncall core.SetAttributeValue
+//@     assert [C03] fieldwrite: wattr == 0 && strContains(variable, ".") && arg2 == newValue && ((splitCount(variable, ".") == 2 && arg1 == splitPart(variable, ".", 1) && arg0 == ite(splitPart(variable, ".", 0) in dc.base, dc.base[splitPart(variable, ".", 0)], Vars[splitPart(variable, ".", 0)])) || (splitCount(variable, ".") == 3 && arg1 == splitPart(variable, ".", 2) && arg0 == fieldOf(ite(splitPart(variable, ".", 0) in dc.base, dc.base[splitPart(variable, ".", 0)], Vars[splitPart(variable, ".", 0)]), splitPart(variable, ".", 1))))
+//@     after wattr := wattr + 1
+//@     after aerr := callresult
+//@   ensures [C03] fieldstored: strContains(variable, ".") && (splitCount(variable, ".") == 2 || splitCount(variable, ".") == 3) && ((splitPart(variable, ".", 0) in dc.base) || (Vars != nil && (splitPart(variable, ".", 0) in Vars))) ==> wattr == 1 && result == aerr
+//@   ensures [C03] fieldunknown: strContains(variable, ".") && (splitCount(variable, ".") > 3 || (!(splitPart(variable, ".", 0) in dc.base) && (Vars == nil || !(splitPart(variable, ".", 0) in Vars)))) ==> result != nil && wattr == 0
 //@   ensures [C15] localbound: !strContains(variable, ".") && !old(variable in dc.base) ==> result == nil && (variable in Vars) && Vars[variable] == newValue && wrote == 0
 //@   ensures [C15] otherlocals: !strContains(variable, ".") ==> forall k: string :: k != variable ==> (k in Vars) == old(k in Vars) && Vars[k] == old(Vars[k])
 //@   ensures [C03] nolocalshadow: !strContains(variable, ".") && old(variable in dc.base) ==> wrote == 1 && (variable in Vars) == old(variable in Vars)
@@ -72,29 +83,101 @@ package context
 //@   loop 0 invariant idx: -1 <= rangeindex && rangeindex < len(keys)
 //@   loop 0 decreases len(keys) - rangeindex
 
+// element write (C03): the container is the injected value of that name (or what it points to); key and value are
+// coerced to the map's key / element type (core.GetWantedValue); exactly ONE store is made: SetMapIndex on that
+// container for a map, Set on the element at the index for a slice / array; nothing is stored on an error
 //@ func (*DataContext).SetMapVarValue
-//@   props C03
-//@   ensures true
-//@   modifies frame evalframe
-//@   trusted container contracts pending
+//@   props C03 C19
+//@   arith int unchecked
+//@   entry nolocks
+//@   guard Vars by dc.lockVars
+//@   ghost ng int = 0
+//@   ghost VAL rv = RV_zero()
+//@   ghost KV rv = RV_zero()
+//@   ghost gerr error = nil
+//@   ghost nw int = 0
+//@   ghost WK rv = RV_zero()
+//@   ghost WV rv = RV_zero()
+//@   ghost lastval bool = false
+//@   ghost nstore int = 0
+//@   oncall (*DataContext).GetValue
+//@     assert [C03] lookups: recv == dc && arg0 == Vars && ((ng == 0 && arg1 == mapVarName) || (ng == 1 && gerr == nil && arg1 == mapVarVarkey && len(mapVarVarkey) > 0))
+//@     after KV := ite(ng == 1, callresult.0, KV)
+//@     after VAL := ite(ng == 0, callresult.0, VAL)
+//@     after gerr := callresult.1
+//@     after ng := ng + 1
+//@   oncall core.GetWantedValue
+//@     assert [C03] coercions: nstore == 0 && ((arg0 == setValue && arg1 == rt_elem(rv_typ(containerOf(VAL)))) || (nw == 0 && rv_kind(containerOf(VAL)) == 21 && arg1 == rt_key(rv_typ(containerOf(VAL))) && ((len(mapVarVarkey) > 0 && arg0 == KV) || (len(mapVarVarkey) == 0 && len(mapVarStrkey) == 0 && rv_kind(arg0) == 6 && rv_int(arg0) == mapVarIntkey))))
+//@     after lastval := arg0 == setValue && arg1 == rt_elem(rv_typ(containerOf(VAL)))
+//@     after WK := ite(nw == 0, callresult.0, WK)
+//@     after WV := callresult.0
+//@     after nw := nw + 1
+//@   oncall (reflect.Value).SetMapIndex
+//@     assert [C03] mapstore: nstore == 0 && recv == containerOf(VAL) && rv_kind(containerOf(VAL)) == 21 && lastval && arg1 == WV && ((len(mapVarVarkey) > 0 && nw == 2 && arg0 == WK) || (len(mapVarVarkey) == 0 && len(mapVarStrkey) > 0 && nw == 1 && rv_kind(arg0) == 24 && rv_str(arg0) == mapVarStrkey) || (len(mapVarVarkey) == 0 && len(mapVarStrkey) == 0 && nw == 2 && arg0 == WK))
+//@     after nstore := nstore + 1
+//@   oncall (reflect.Value).Set
+//@     assert [C03] seqstore: nstore == 0 && (rv_kind(containerOf(VAL)) == 23 || rv_kind(containerOf(VAL)) == 17) && lastval && nw == 1 && arg0 == WV && ((len(mapVarVarkey) > 0 && recv == rv_index(containerOf(VAL), rv_int(KV))) || (len(mapVarVarkey) == 0 && len(mapVarStrkey) == 0 && mapVarIntkey >= 0 && recv == rv_index(containerOf(VAL), mapVarIntkey)))
+//@     after nstore := nstore + 1
+//@   ensures [C03] stored: result == nil ==> nstore == 1
+//@   ensures [C03] refused: result != nil ==> nstore == 0
+//@   ensures [C03] lookuperr: gerr != nil ==> result != nil
+//@   ensures [C03] accepts: gerr == nil && ((rv_kind(containerOf(VAL)) == 21) || ((rv_kind(containerOf(VAL)) == 23 || rv_kind(containerOf(VAL)) == 17) && (len(mapVarVarkey) > 0 || (len(mapVarStrkey) == 0 && mapVarIntkey >= 0)))) ==> result == nil
+//@   modifies nothing
 
+// calls (C03): the callee is resolved injected-first, the arguments are coerced to the declared parameter kinds and
+// passed positionally in ONE call, the first result is returned
 //@ func (*DataContext).ExecFunc
-//@   props C03
-//@   ensures true
-//@   modifies frame evalframe
-//@   trusted call contracts pending
+//@   props C03 C19
+//@   arith int unchecked
+//@   entry nolocks
+//@   guard Vars by dc.lockVars
+//@   ghost ncall int = 0
+//@   ghost RSlen int = 0
+//@   ghost RS0 rv = RV_zero()
+//@   oncall core.ParamsTypeChange
+//@     assert [C03] coerced: ncall == 0 && arg0 == ite(funcName in dc.base, dc.base[funcName], Vars[funcName]) && arr(arg1) == arr(parameters) && lo(arg1) == lo(parameters) && len(arg1) == len(parameters)
+//@   oncall (reflect.Value).Call
+//@     assert [C03] injectedfirst: ncall == 0 && recv == ite(funcName in dc.base, dc.base[funcName], Vars[funcName]) && arr(arg0) == arr(parameters) && lo(arg0) == lo(parameters) && len(arg0) == len(parameters)
+//@     after ncall := ncall + 1
+//@     after RSlen := len(callresult)
+//@     after RS0 := ite(len(callresult) > 0, callresult[0], RV_zero())
+//@   ensures [C03] notfound: !old(funcName in dc.base) && (Vars == nil || !old(funcName in Vars)) ==> result.1 != nil && ncall == 0
+//@   ensures [C03] called: old(funcName in dc.base) || (Vars != nil && old(funcName in Vars)) ==> ncall == 1 && result.1 == nil && (RSlen == 0 ==> result.0 == RV_zero()) && (RSlen > 0 ==> result.0 == RS0)
+//@   modifies frame evalframe, elems(parameters)
 
 //@ func (*DataContext).ExecMethod
-//@   props C03
-//@   ensures true
-//@   modifies frame evalframe
-//@   trusted call contracts pending
+//@   props C03 C19
+//@   entry nolocks
+//@   guard Vars by dc.lockVars
+//@   ghost ncall int = 0
+//@   ghost cv rv = RV_zero()
+//@   ghost ce error = nil
+//@   oncall core.InvokeFunction
+//@     assert [C03] injectedfirst: ncall == 0 && splitCount(methodName, ".") == 2 && arg1 == splitPart(methodName, ".", 1) && arg0 == ite(splitPart(methodName, ".", 0) in dc.base, dc.base[splitPart(methodName, ".", 0)], Vars[splitPart(methodName, ".", 0)]) && arr(arg2) == arr(args) && lo(arg2) == lo(args) && len(arg2) == len(args)
+//@     after ncall := ncall + 1
+//@     after cv := callresult.0
+//@     after ce := callresult.1
+//@   ensures [C03] shape: splitCount(methodName, ".") != 2 ==> result.1 != nil && ncall == 0
+//@   ensures [C03] notfound: splitCount(methodName, ".") == 2 && !old(splitPart(methodName, ".", 0) in dc.base) && (Vars == nil || !old(splitPart(methodName, ".", 0) in Vars)) ==> result.1 != nil && ncall == 0
+//@   ensures [C03] called: splitCount(methodName, ".") == 2 && (old(splitPart(methodName, ".", 0) in dc.base) || (Vars != nil && old(splitPart(methodName, ".", 0) in Vars))) ==> ncall == 1 && result.1 == ce && (ce == nil ==> result.0 == cv)
+//@   modifies frame evalframe, elems(args)
 
 //@ func (*DataContext).ExecThreeLevel
-//@   props C03
-//@   ensures true
-//@   modifies frame evalframe
-//@   trusted call contracts pending
+//@   props C03 C19
+//@   entry nolocks
+//@   guard Vars by dc.lockVars
+//@   ghost ncall int = 0
+//@   ghost cv rv = RV_zero()
+//@   ghost ce error = nil
+//@   oncall core.InvokeFunction
+//@     assert [C03] injectedfirst: ncall == 0 && splitCount(threeLevelName, ".") == 3 && arg1 == splitPart(threeLevelName, ".", 2) && arg0 == fieldOf(ite(splitPart(threeLevelName, ".", 0) in dc.base, dc.base[splitPart(threeLevelName, ".", 0)], Vars[splitPart(threeLevelName, ".", 0)]), splitPart(threeLevelName, ".", 1)) && arr(arg2) == arr(args) && lo(arg2) == lo(args) && len(arg2) == len(args)
+//@     after ncall := ncall + 1
+//@     after cv := callresult.0
+//@     after ce := callresult.1
+//@   ensures [C03] shape: splitCount(threeLevelName, ".") != 3 ==> result.1 != nil && ncall == 0
+//@   ensures [C03] notfound: splitCount(threeLevelName, ".") == 3 && !old(splitPart(threeLevelName, ".", 0) in dc.base) && (Vars == nil || !old(splitPart(threeLevelName, ".", 0) in Vars)) ==> result.1 != nil && ncall == 0
+//@   ensures [C03] called: splitCount(threeLevelName, ".") == 3 && (old(splitPart(threeLevelName, ".", 0) in dc.base) || (Vars != nil && old(splitPart(threeLevelName, ".", 0) in Vars))) ==> ncall == 1 && result.1 == ce && (ce == nil ==> result.0 == cv)
+//@   modifies frame evalframe, elems(args)
 
 //@ func NewDataContext
 //@   props C06
